@@ -126,6 +126,9 @@ class JSON:
 
     name = "json"
 
+    max_indent = 32
+    """The maximum number of spaces used to indent nested values."""
+
     def __init__(self, default: Callable[[Any], Any] | None = None):
         self.default = default
 
@@ -135,7 +138,8 @@ class JSON:
         indent: object | None = None,
     ) -> str:
         """Apply this filter to _left_ and return the result."""
-        indent = int_arg(indent) if indent else None
+        # A huge indent is a cheap way to exhaust memory from a template.
+        indent = min(int_arg(indent), self.max_indent) if indent else None
         try:
             return json.dumps(left, default=self.default, indent=indent)
         except TypeError as err:
